@@ -33,6 +33,7 @@ def units(tier, seed):
     if tier == "thorough":
         for part in split_list(_g.sparse_codes(5, 4, (1, 2)), 32):
             out.append({"stage": "grid", "p": 5, "codes": part})
+    out.append({"stage": "seed-range"})
     return out
 
 
@@ -140,14 +141,18 @@ def run_tape(unit, acc):
             counts = range(0, mx + 1) if bound is None else sorted({min(1, mx), mx})
             for k in counts:
                 results = set()
+                kinds = set()
+                unm = [0]
 
                 def run(prefix):
                     fails, r, tp = one_call(fn, p, code, "binint", k, 0, answers=prefix)
                     acc.states += 1
                     acc.traces += 1
                     acc.transitions += len(tp.points)
+                    kinds.update(pt["kind"] for pt in tp.points)
                     if tp.unmodelled:
                         acc.undecided += 1
+                        unm[0] += 1
                         return tp.points
                     if any(prefix):
                         acc.nontrivial += 1
@@ -160,15 +165,57 @@ def run_tape(unit, acc):
                 acc.extra["tape_configs_%s" % ("complete" if bound is None and not capped else "deviation<=%s" % bound)] += 1
                 acc.outcome([fn, code, k, len(results)])
                 # every feasible outcome is reachable: removing k edges can give any k-subset
-                if fn == "remove" and bound is None and not capped:
+                # presupposes that the removed edges are drawn through choice cells; other legitimate samplers are left to the seed-range stage
+                if fn == "remove" and bound is None and not capped and not unm[0] and kinds <= {"choice"}:
                     import math
                     if len(results) != math.comb(G.nedges(p, code), k):
                         acc.fail("tape-config", {"fn": fn, "p": p, "code": code, "k": k}, "remove-not-uniform",
                                  "remove_edges(code %d, %d): over all RNG answers only %d of the %d edge subsets are removed" % (code, k, len(results), math.comb(G.nedges(p, code), k)))
 
 
+def run_seed_range(acc, nseeds=300):
+    """every random_state in [0, nseeds) with the real generator on a 3-edge and a 2-edge DAG: every edge subset is removed by
+    some seed, every feasible single addition is made by some seed (miss probability < 1e-40 under uniform sampling)."""
+    import itertools
+    A = np.array([[0, 1, 1, 0], [0, 0, 1, 0], [0, 0, 0, 0], [0, 0, 0, 0]])
+    edges = [(0, 1), (0, 2), (1, 2)]
+    for k in (1, 2):
+        seen = set()
+        for s in range(nseeds):
+            r = _g.call(U.remove_edges, A.copy(), k, random_state=s)
+            acc.states += 1
+            acc.transitions += 1
+            acc.traces += 1
+            acc.extra["seed_range_executions"] += 1
+            f = judge("remove", 4, G.pattern(A.tolist()), k, r, "remove_edges(%s, %d, random_state=%d)" % (A.tolist(), k, s))
+            for sig, msg in f:
+                acc.fail("seed-range", {"k": k}, sig, msg)
+            if f or r[0] != "ok":
+                return
+            seen.add(G.pattern(np.asarray(r[1]).tolist()))
+        want = len(list(itertools.combinations(edges, k)))
+        if len(seen) != want:
+            acc.fail("seed-range", {"k": k}, "remove-not-uniform", "remove_edges(3-edge DAG, %d): over random_state 0..%d only %d of the %d edge subsets are removed" % (k, nseeds - 1, len(seen), want))
+    seen = set()
+    for s in range(nseeds):
+        r = _g.call(U.add_edges, A.copy(), 1, random_state=s)
+        acc.states += 1
+        acc.transitions += 1
+        f = judge("add", 4, G.pattern(A.tolist()), 1, r, "add_edges(%s, 1, random_state=%d)" % (A.tolist(), s))
+        for sig, msg in f:
+            acc.fail("seed-range", {"k": "add"}, sig, msg)
+        if f or r[0] != "ok":
+            return
+        seen.add(G.pattern(np.asarray(r[1]).tolist()))
+    if len(seen) < 6:         # node 3 can be joined to 0, 1, 2 in either direction: 6 different single additions
+        acc.fail("seed-range", {"k": "add"}, "add-not-random", "add_edges(3-edge DAG + isolated node, 1): over random_state 0..%d only %d of the 6 possible additions occur" % (nseeds - 1, len(seen)))
+
+
 def run_unit(unit):
     acc = Acc()
+    if unit["stage"] == "seed-range":
+        run_seed_range(acc)
+        return acc.out()
     if unit["stage"] == "grid":
         run_grid(unit, acc)
     else:
@@ -184,6 +231,10 @@ def replay(kind, case):
             if r2[0] != "ok" or not np.array_equal(r[1], r2[1]):
                 fails.append(("not-deterministic", "differs between two identical calls"))
         return fails
+    if kind == "seed-range":
+        acc = Acc(keep_failures=20)
+        run_seed_range(acc)
+        return [(f["sig"], f["msg"]) for f in acc.failures]
     if kind == "tape":
         return one_call(case["fn"], case["p"], case["code"], "binint", case["k"], 0, answers=case["answers"])[0]
     acc = Acc()
